@@ -2,6 +2,7 @@
 #pragma once
 #include "../floatval.h"
 #include "../scaledval.h"
+#include "../sweep.h"
 
 namespace c09 {
 using namespace vf;
